@@ -51,6 +51,9 @@ pub enum Fault {
     /// archive can be created but every byte written to it is refused (ENOSPC) - a device that fills up while the
     /// rolled file is being compressed; small archives meet the error only when the encoder is finished/flushed
     FullDevice { r: usize },
+    /// hook-free: rotation attempt `r` is carried out - the file is archived - and only then reported as failed (a roller
+    /// with a follow-up step of its own: an upload, an index file, a notification)
+    FailAfterMove { r: usize },
 }
 
 /// One faulted execution = what a replay file holds.
@@ -117,8 +120,16 @@ fn active_path(dir: &Path, cross_device: bool) -> PathBuf {
     dir.join(ACTIVE)
 }
 
-fn build(dir: &Path, case: &Case) -> Result<RollingFileAppender, Failure> {
-    let policy = make_policy(dir, &case.trigger, &case.roller).map_err(|e| Failure { sig: "C08:build".into(), msg: e.to_string() })?;
+fn build(dir: &Path, case: &Case, fault: &Fault, scripted_failures: &Arc<std::sync::atomic::AtomicUsize>) -> Result<RollingFileAppender, Failure> {
+    let policy = match fault {
+        Fault::FailAfterMove { r } => {
+            let mut script = vec![false; *r];
+            script.push(true);
+            make_flaky_policy_with(dir, &case.trigger, &case.roller, &script, true, scripted_failures)
+        }
+        _ => make_policy(dir, &case.trigger, &case.roller),
+    }
+    .map_err(|e| Failure { sig: "C08:build".into(), msg: e.to_string() })?;
     build_appender(&active_path(dir, case.cross_device), case.append_mode, &None, policy).map_err(|e| Failure { sig: "C08:build".into(), msg: e.to_string() })
 }
 
@@ -294,7 +305,8 @@ fn execute_in(dir: &Path, image: &Path, f: &Faulted, obs: &mut Obs) -> Result<Re
     }
     let active = active_path(dir, case.cross_device);
     let image_active = active_path(image, case.cross_device);
-    let mut app = build(dir, case)?;
+    let scripted_failures = Arc::new(std::sync::atomic::AtomicUsize::new(0));
+    let mut app = build(dir, case, &f.fault, &scripted_failures)?;
     let mut now = T0;
     let mut attempted: Vec<RecId> = vec![];
     let mut acked: Vec<bool> = vec![];
@@ -362,6 +374,7 @@ fn execute_in(dir: &Path, image: &Path, f: &Faulted, obs: &mut Obs) -> Result<Re
             .or_else(|| (0..window_count(&case.roller)).filter_map(|o| archive_path(dir, &case.roller, o)).find(|p| is_full_device_link(p)));
         let before = managed(dir, &case.roller, &active);
         let injected_before = state.lock().unwrap().injected;
+        let scripted_before = scripted_failures.load(std::sync::atomic::Ordering::SeqCst);
         let image_before = state.lock().unwrap().image_taken;
         let id = RecId { tid: 0, seq, len };
         let text = record_text(0, seq, len);
@@ -370,7 +383,8 @@ fn execute_in(dir: &Path, image: &Path, f: &Faulted, obs: &mut Obs) -> Result<Re
         let res = catch(|| append_msg(&app, &text));
         obs.sub_evals += 1;
         let what = format!("append #{} (fault {:?})", i, f.fault);
-        let injected_now = state.lock().unwrap().injected > injected_before;
+        let scripted_now = scripted_failures.load(std::sync::atomic::Ordering::SeqCst) > scripted_before;
+        let injected_now = state.lock().unwrap().injected > injected_before || scripted_now;
         let ok = match res {
             Err(p) => return fail("C08:panic", format!("{}: append panicked instead of reporting an error: {}", what, p)),
             Ok(Ok(())) => true,
@@ -409,6 +423,9 @@ fn execute_in(dir: &Path, image: &Path, f: &Faulted, obs: &mut Obs) -> Result<Re
                 fault_lifted_at = Some(i);
             }
         }
+        if scripted_now && fault_lifted_at.is_none() {
+            fault_lifted_at = Some(i);
+        }
         if injected_now && state.lock().unwrap().failures_left == 0 && fault_lifted_at.is_none() {
             fault_lifted_at = Some(i);
         }
@@ -437,7 +454,7 @@ fn execute_in(dir: &Path, image: &Path, f: &Faulted, obs: &mut Obs) -> Result<Re
         check_stream(image, &case.roller, &image_active, &att, &ack, &what)?;
         // every file of the image parses; now restart
         let before_restart = managed(image, &case.roller, &image_active);
-        app = build(image, case)?;
+        app = build(image, case, &Fault::None, &scripted_failures)?;
         if !case.append_mode {
             // truncate mode discards the active file's content at open: those records leave the reference
             let active_recs = before_restart.iter().find(|(n, _)| n == "active").map(|(_, c)| parse_stream(c).unwrap_or_default()).unwrap_or_default();
@@ -479,7 +496,7 @@ pub fn check_faulted(tmp: &Path, f: &Faulted, obs: &mut Obs) -> CaseResult {
     let shift_step = match &f.fault {
         Fault::Error { s, .. } | Fault::Crash { s, .. } => (*s as u32) < count.saturating_sub(1),
         Fault::Obstacle { off, .. } | Fault::DanglingDir { off, .. } | Fault::FileAtDir { off, .. } | Fault::ForeignDir { off, .. } => *off > 0,
-        Fault::FullDevice { .. } => true,
+        Fault::FullDevice { .. } | Fault::FailAfterMove { .. } => true,
         Fault::None => false,
     };
     let pre = matches!(f.case.trigger, TrigSpec::Scripted(_, true) | TrigSpec::Time(..));
@@ -490,6 +507,7 @@ pub fn check_faulted(tmp: &Path, f: &Faulted, obs: &mut Obs) -> CaseResult {
         Fault::Crash { .. } => "fault=crash-image",
         Fault::Obstacle { .. } => "fault=obstacle-directory",
         Fault::FullDevice { .. } => "fault=archive-on-a-full-device",
+        Fault::FailAfterMove { .. } => "fault=roller-archives-then-reports-failure",
         Fault::DanglingDir { .. } => "fault=dangling-symlink-directory",
         Fault::FileAtDir { .. } => "fault=regular-file-at-slot-directory",
         Fault::ForeignDir { .. } => "fault=slot-directory-is-a-link-into-procfs",
@@ -516,11 +534,21 @@ pub fn expand(tmp: &Path, case: &Case) -> Result<Vec<Faulted>, Failure> {
         out.push(Faulted { case: case.clone(), fault: Fault::Error { r, s } });
         out.push(Faulted { case: case.clone(), fault: Fault::Crash { r, s } });
     }
+    for r in 0..rep.rotations.min(4) {
+        out.push(Faulted { case: case.clone(), fault: Fault::FailAfterMove { r } });
+    }
     // hook-free cross-check on plain (rename-based) patterns: obstacle at the destination of the final move / first shift
     if let RollSpec::Fixed { count, pattern, .. } = &case.roller {
         if *count == 1 && (pattern.ends_with(".gz") || pattern.ends_with(".zst")) && Path::new("/dev/full").exists() {
             for r in 0..rep.rotations.min(3) {
                 out.push(Faulted { case: case.clone(), fault: Fault::FullDevice { r } });
+            }
+        }
+        if *count == 1 && (pattern.ends_with(".gz") || pattern.ends_with(".zst")) {
+            // a non-empty directory at the only archive name (no shift carries it away): the compressed archive cannot be
+            // put in place, at whichever moment the roller tries to
+            for r in 0..rep.rotations.min(3) {
+                out.push(Faulted { case: case.clone(), fault: Fault::Obstacle { r, off: 0 } });
             }
         }
         if !pattern.ends_with(".gz") && !pattern.ends_with(".zst") {
@@ -705,7 +733,7 @@ pub fn replay(part: &str, case: serde_json::Value) -> Option<CaseResult> {
 pub fn meta() -> EvidenceMeta {
     EvidenceMeta {
         level: "fault_enumeration",
-        rule: "cases = generated histories (trigger: size / scripted pre-processing / scripted post-processing / time via the guarded clock; fixed window base in {0,1,7, u32::MAX-count+1}, count 1-6, plain / directory-component / .gz pattern; append or truncate mode; 5-40 appends of self-delimiting records; obstruction persisting for 1-3 rotation attempts; continuation of 3-25 appends). Each history is first run dry to learn its rotations, then EVERY (rotation, step) pair - each archive shift and the final move/compress - is enumerated twice through hook H2: as an injected error (rotate aborts exactly there) and as a crash point (directory image, restart on the image in the same mode, continuation); plus hook-free obstructions: a non-empty directory at the destination of the final move / of the first shift, and (directory patterns) a dangling symlink, a regular file or a link into procfs (rename fails with EXDEV, the copy fallback in its own way) in place of any slot directory of the window. Part global-logger (child process per case): the rolling appender is the root appender of the installed global logger, every archive slot is a non-empty directory until half-way through; every record logged through the macros must come back (20 s watchdog per record: a rotation failure that is reported through the logger itself must not dead-lock the appender), in order, none lost. evaluations counts histories, oracle_evaluations_inside_cases counts faulted executions and appends. Oracle after every append and on every crash image: failing append returns Err and never panics; every managed file parses into whole records; archives by descending index then the active file yield an in-order duplicate-free stream that is gap-free w.r.t. acknowledged records; every chunk on disk before the operation except the top-index archive is still present byte-for-byte (active chunk may have grown); after the fault is lifted every append succeeds and a size trigger performs the pending rotation. non-trivial = a history with a fault at a shift step of a window >= 2, or any fault in truncate mode, or a pre-processing trigger".into(),
+        rule: "cases = generated histories (trigger: size / scripted pre-processing / scripted post-processing / time via the guarded clock; fixed window base in {0,1,7, u32::MAX-count+1}, count 1-6, plain / directory-component / .gz pattern; append or truncate mode; 5-40 appends of self-delimiting records; obstruction persisting for 1-3 rotation attempts; continuation of 3-25 appends). Each history is first run dry to learn its rotations, then EVERY (rotation, step) pair - each archive shift and the final move/compress - is enumerated twice through hook H2: as an injected error (rotate aborts exactly there) and as a crash point (directory image, restart on the image in the same mode, continuation); plus hook-free obstructions: a non-empty directory at the destination of the final move / of the first shift, and (directory patterns) a dangling symlink, a regular file or a link into procfs (rename fails with EXDEV, the copy fallback in its own way) in place of any slot directory of the window. Part global-logger (child process per case): the rolling appender is the root appender of the installed global logger, every archive slot is a non-empty directory until half-way through; every record logged through the macros must come back (20 s watchdog per record: a rotation failure that is reported through the logger itself must not dead-lock the appender), in order, none lost. evaluations counts histories, oracle_evaluations_inside_cases counts faulted executions and appends. Oracle after every append and on every crash image: failing append returns Err and never panics; every managed file parses into whole records; archives by descending index then the active file yield an in-order duplicate-free stream that is gap-free w.r.t. acknowledged records; every chunk on disk before the operation except the top-index archive is still present byte-for-byte (active chunk may have grown); after the fault is lifted every append succeeds and a size trigger performs the pending rotation. Further hook-free faults: the archive on a full device (name linked to /dev/full) and a non-empty directory at the only archive name for compressing patterns with a window of one; a roller that archives the file and only then reports a failure (rotation r of the history). non-trivial = a history with a fault at a shift step of a window >= 2, or any fault in truncate mode, or a pre-processing trigger".into(),
         assumptions: vec![
             "crash = process death with an intact page cache (directory image at hook points between steps); fsync/power loss and mid-compression crashes are not modelled".into(),
             "foreground rotation only (the statement does not quantify over background rotation)".into(),
